@@ -1,8 +1,409 @@
 import Driver.Proto
+import AdaptaVerif.Model.Pins
+import AdaptaVerif.Check.Attach
+/-!
+Driver mode `c11`: pins / junctions / checkpoints (see harness/c11.cpp for the line format).
+Per step (= one `Router::processTransaction`) the implementation's observables are checked:
+* SPECFAIL (property clause violated, decided by the checkers of `Check/Attach.lean` and the
+  state machine of `Model/Pins.lean`): pin-attached end not at a pin of its class although a free
+  pin exists; first/last leg of an orthogonal route not in a permitted direction; exclusive pin
+  used twice; pin did not follow a translation / left its box / lost its proportional place;
+  checkpoint not on the route or out of order; junction end not at the junction.
+* DIVERGE: `ShapeConnectionPin::position()/directions()/isExclusive()` differ from the model
+  without any of the clauses above failing.
+-/
 namespace Driver.C11
+open Driver AdaptaVerif.Num AdaptaVerif.Model.Pins AdaptaVerif.Check.Attach
 
-def run (_args : List String) : IO UInt32 := do
-  IO.eprintln "driver mode c11: not implemented yet"
-  return 2
+inductive EndK where
+  | pin (shape cls : Nat)
+  | junc (j : Nat)
+  | free (p : P2)
+  deriving Inhabited, Repr
+
+structure PinRec where
+  id : Nat
+  shape : Nat
+  spec : PinSpec
+  exclSet : Int            -- -1 default, 0/1 explicit
+  deriving Inhabited
+
+structure ConnRec where
+  id : Nat
+  orth : Bool
+  src : EndK
+  dst : EndK
+  cps : List P2 := []
+  deriving Inhabited
+
+structure PinObs where
+  id : Nat
+  pos : P2
+  dirs : Nat
+  excl : Bool
+  deriving Inhabited
+
+structure JuncObs where
+  id : Nat
+  pos : P2
+  recPos : P2
+  fixed : Bool
+  deriving Inhabited
+
+/-- everything observed in one step -/
+structure Obs where
+  boxes : List (Nat × Box) := []
+  pins : List PinObs := []
+  juncs : List JuncObs := []
+  routes : List (Nat × List P2) := []
+  disps : List (Nat × List P2) := []
+  deriving Inhabited
+
+structure St where
+  pins : List PinRec := []
+  conns : List ConnRec := []
+  prev : Obs := {}
+  cur : Obs := {}
+  stepNo : Nat := 0
+  moved : Bool := false           -- some move/resize op happened before the current step
+  fails : List String := []       -- SPECFAIL messages
+  divs : List String := []        -- DIVERGE messages
+  stats : List (String × Nat) := []
+  nontrivial : Bool := false
+  hyperOn : Bool := true          -- cfg: routing option improveHyperedgeRoutesMovingJunctions
+  strict : List String := []      -- driver args: finding classes to report as SPECFAIL (else counted)
+  deriving Inhabited
+
+def rat! (s : String) : Rat := (num? s).getD 0
+def pt! (l : Array String) (i : Nat) : P2 := ⟨rat! l[i]!, rat! l[i+1]!⟩
+
+def ptsFrom (l : Array String) (start n : Nat) : List P2 :=
+  (List.range n).map (fun i => pt! l (start + 2 * i))
+
+def lookup {α} (xs : List (Nat × α)) (k : Nat) : Option α := (xs.find? (·.1 == k)).map (·.2)
+
+def showP (p : P2) : String := s!"({ratToString p.x},{ratToString p.y})"
+
+def parseEnd (l : Array String) (i : Nat) : EndK × Nat :=
+  match l[i]! with
+  | "P" => (.pin (nat! l[i+1]!) (nat! l[i+2]!), i + 3)
+  | "J" => (.junc (nat! l[i+1]!), i + 2)
+  | _ => (.free (pt! l (i + 1)), i + 3)
+
+def bump (s : St) (k : String) (n : Nat := 1) : St := { s with stats := bumpStats s.stats k n }
+
+/-- A failure belonging to a *suspected-genuine-defect class* (see the report / LEVEL_NOTE of
+    check/props/C11.py). It is always counted (`finding.<class>`); it becomes a SPECFAIL when the
+    class is named on the driver command line (C11.py does that as soon as known_findings.json
+    carries an entry for the class, so that the hit is printed as KNOWN-FINDING). -/
+def gated (s : St) (cls msg : String) : St :=
+  let s := bump s ("finding." ++ cls)
+  if s.strict.contains cls || s.strict.contains "all" then { s with fails := s!"[{cls}] {msg}" :: s.fails } else s
+
+/-- hypotheses of `pin_in_box` (Props/C11.lean) on one axis -/
+def axisInRange (prop : Bool) (off inside lo hi : Rat) : Bool :=
+  decide (lo ≤ hi) && decide (0 ≤ inside) && decide (inside ≤ hi - lo) &&
+    (if prop then decide (0 ≤ off) && decide (off ≤ 1)
+     else decide (off = -1) || (decide (0 ≤ off) && decide (off ≤ hi - lo)))
+
+def axisKind (prop : Bool) (off lo hi : Rat) : String :=
+  if prop then (if off = 0 then "prop.min" else if off = 1 then "prop.max" else "prop.generic")
+  else (if off = 0 then "abs.min" else if off = -1 then "abs.max" else if off = hi - lo then "abs.width" else "abs.generic")
+
+/-- checks on the pins of one step -/
+def checkPins (s : St) : St := Id.run do
+  let mut s := s
+  for po in s.cur.pins do
+    match s.pins.find? (·.id == po.id) with
+    | none => s := { s with divs := s!"step {s.stepNo}: unknown pin {po.id}" :: s.divs }
+    | some pr =>
+      match lookup s.cur.boxes pr.shape with
+      | none => s := { s with divs := s!"step {s.stepNo}: pin {po.id} without shape box" :: s.divs }
+      | some b =>
+        let sp := pr.spec
+        let m := pinPosition sp b
+        s := bump s ("pinpos.x." ++ axisKind sp.proportional sp.xOff b.minX b.maxX)
+        s := bump s ("pinpos.y." ++ axisKind sp.proportional sp.yOff b.minY b.maxY)
+        let mut clause := false
+        -- clause: pin follows a translation of its shape
+        match lookup s.prev.boxes pr.shape, s.prev.pins.find? (·.id == po.id) with
+        | some pb, some pp =>
+          let t : P2 := ⟨b.minX - pb.minX, b.minY - pb.minY⟩
+          if pb.translate t == b then
+            if t != ⟨0, 0⟩ then s := bump s "pin.translated"
+            if pp.pos.translate t != po.pos then
+              clause := true
+              s := { s with fails := s!"step {s.stepNo}: pin {po.id} did not follow the translation of shape {pr.shape}: was {showP pp.pos}, shift {showP t}, now {showP po.pos}" :: s.fails }
+          else s := bump s "pin.resized"
+        | _, _ => pure ()
+        -- clause: offsets in range ⇒ inside / on the bounding box
+        if axisInRange sp.proportional sp.xOff sp.inside b.minX b.maxX && !(decide (b.minX ≤ po.pos.x) && decide (po.pos.x ≤ b.maxX)) then
+          clause := true
+          s := { s with fails := s!"step {s.stepNo}: pin {po.id} x={ratToString po.pos.x} outside its box [{ratToString b.minX},{ratToString b.maxX}]" :: s.fails }
+        if axisInRange sp.proportional sp.yOff sp.inside b.minY b.maxY && !(decide (b.minY ≤ po.pos.y) && decide (po.pos.y ≤ b.maxY)) then
+          clause := true
+          s := { s with fails := s!"step {s.stepNo}: pin {po.id} y={ratToString po.pos.y} outside its box [{ratToString b.minY},{ratToString b.maxY}]" :: s.fails }
+        -- clause: proportional pin keeps its relative place
+        if sp.proportional && sp.xOff != 0 && sp.xOff != 1 && po.pos.x - b.minX != sp.xOff * b.width then
+          clause := true
+          s := { s with fails := s!"step {s.stepNo}: proportional pin {po.id} x-offset {ratToString (po.pos.x - b.minX)} ≠ {ratToString sp.xOff}·width" :: s.fails }
+        if sp.proportional && sp.yOff != 0 && sp.yOff != 1 && po.pos.y - b.minY != sp.yOff * b.height then
+          clause := true
+          s := { s with fails := s!"step {s.stepNo}: proportional pin {po.id} y-offset {ratToString (po.pos.y - b.minY)} ≠ {ratToString sp.yOff}·height" :: s.fails }
+        if m != po.pos && !clause then
+          s := { s with divs := s!"step {s.stepNo}: pin {po.id} position() = {showP po.pos}, model {showP m}" :: s.divs }
+        if pinDirections sp != po.dirs then
+          s := { s with divs := s!"step {s.stepNo}: pin {po.id} directions() = {po.dirs}, model {pinDirections sp}" :: s.divs }
+        if pr.exclSet == -1 && defaultExclusive sp != po.excl then
+          s := { s with divs := s!"step {s.stepNo}: pin {po.id} default isExclusive() = {po.excl}, model {defaultExclusive sp}" :: s.divs }
+  return s
+
+structure EndObs where
+  hyper : Bool         -- the connector has a junction end (member of a hyperedge)
+  conn : Nat
+  isDst : Bool
+  orth : Bool
+  route : List P2      -- oriented so that the attached end is the head
+  disp : List P2
+  deriving Inhabited
+
+def hasJunctionEnd (c : ConnRec) : Bool :=
+  (match c.src with | .junc _ => true | _ => false) || (match c.dst with | .junc _ => true | _ => false)
+
+/-- do the junction-attached ends of `rt` sit at their junctions? -/
+def junctionEndsOk (s : St) (c : ConnRec) (rt : List P2) : Bool :=
+  (match c.src with
+    | .junc j => (match s.cur.juncs.find? (·.id == j), rt.head? with | some jo, some p => jo.pos == p || jo.recPos == p | _, _ => false)
+    | _ => true) &&
+  (match c.dst with
+    | .junc j => (match s.cur.juncs.find? (·.id == j), rt.getLast? with | some jo, some p => jo.pos == p || jo.recPos == p | _, _ => false)
+    | _ => true)
+
+/-- `displayRoute()` of a connector that is part of a hyperedge (has a junction end) may come back
+    from `HyperedgeImprover` with source and target swapped; the property speaks of "an end", so
+    the orientation in which the junction ends fit is used (counted in `disp.reversed`). -/
+def orientDisp (s : St) (c : ConnRec) (d : List P2) : List P2 × Bool :=
+  if hasJunctionEnd c && !junctionEndsOk s c d && junctionEndsOk s c d.reverse then (d.reverse, true) else (d, false)
+
+/-- pin-attached ends of live connectors on live shapes, grouped by (shape, class) -/
+def pinEnds (s : St) : List ((Nat × Nat) × List EndObs) := Id.run do
+  let mut groups : List ((Nat × Nat) × List EndObs) := []
+  for c in s.conns do
+    match lookup s.cur.routes c.id, lookup s.cur.disps c.id with
+    | some r, some d0 =>
+      let d := (orientDisp s c d0).1
+      for (e, isDst) in [(c.src, false), (c.dst, true)] do
+        match e with
+        | .pin sh cls =>
+          if (lookup s.cur.boxes sh).isSome then
+            let eo : EndObs := ⟨hasJunctionEnd c && s.hyperOn, c.id, isDst, c.orth, if isDst then r.reverse else r, if isDst then d.reverse else d⟩
+            groups := match groups.find? (·.1 == (sh, cls)) with
+              | some _ => groups.map (fun g => if g.1 == (sh, cls) then (g.1, g.2 ++ [eo]) else g)
+              | none => groups ++ [((sh, cls), [eo])]
+        | _ => pure ()
+    | _, _ => pure ()
+  return groups
+
+def groupPins (s : St) (sh cls : Nat) : List PinObs :=
+  s.cur.pins.filter (fun po => match s.pins.find? (·.id == po.id) with
+    | some pr => pr.shape == sh && pr.spec.classId == cls
+    | none => false)
+
+def groupCap (pins : List PinObs) (nEnds : Nat) : Nat :=
+  if pins.any (fun p => !p.excl) then nEnds else (pins.filter (·.excl)).length
+
+/-- (shape, class) groups with more attached ends than pin capacity, and the connectors in them:
+    for some of these connectors no free pin exists ("provided a free pin exists" fails); such a
+    connector has no route at all (libavoid leaves the straight dummy line), so nothing is
+    required of it. Order-independent over-approximation of "no free pin was available". -/
+def overGroups (s : St) (groups : List ((Nat × Nat) × List EndObs)) : List ((Nat × Nat) × List EndObs) :=
+  groups.filter (fun g => g.2.length > groupCap (groupPins s g.1.1 g.1.2) g.2.length)
+
+def overOf (og : List ((Nat × Nat) × List EndObs)) (conn : Nat) : List (Nat × Nat) :=
+  (og.filter (fun g => g.2.any (·.conn == conn))).map (·.1)
+
+/-- libavoid's fallback when the search finds no path: the straight line between the two dummy end
+    vertices. Recognised for orthogonal connectors as a 2-point route that is not axis-parallel. -/
+def isNoPathFallback (orth : Bool) (r : List P2) : Bool :=
+  match r with
+  | [a, b] => orth && a.x != b.x && a.y != b.y
+  | _ => false
+
+/-- connectors of this step whose orthogonal route() is the no-path fallback although every
+    attached pin class has capacity (class no-path: a routing failure, C03/C05 territory) -/
+def noPathConns (s : St) (og : List ((Nat × Nat) × List EndObs)) : List Nat :=
+  (s.conns.filter (fun c => match lookup s.cur.routes c.id with
+    | some r => isNoPathFallback c.orth r && (overOf og c.id).isEmpty
+    | none => false)).map (·.id)
+
+def checkEnds (s : St) : St := Id.run do
+  let mut s := s
+  let groups0 := pinEnds s
+  let og := overGroups s groups0
+  let np := noPathConns s og
+  for c in np do
+    s := gated s "no-path" s!"step {s.stepNo}: orthogonal connector {c}: route() is the straight no-path fallback although free pins exist"
+  let groups := groups0.map (fun g => (g.1, g.2.filter (fun e => !np.contains e.conn)))
+  for ((sh, cls), allEnds) in groups do
+    let pins := groupPins s sh cls
+    let cap := groupCap pins allEnds.length
+    if pins.length > 1 then s := bump s "group.multipin"
+    if allEnds.length > cap then
+      -- over capacity: the first `cap` routed connectors take the pins
+      s := bump s "group.overcapacity"
+      if !(allEnds.any (fun e => (overOf og e.conn).any (· != (sh, cls)))) then
+        for (which, pick) in [("route()", fun (e : EndObs) => e.route), ("displayRoute()", fun (e : EndObs) => e.disp)] do
+          let onPin := (allEnds.filter (fun e => match (pick e).head? with
+            | some p0 => pins.any (fun p => p.pos == p0)
+            | none => false)).length
+          if onPin < cap then
+            s := { s with fails := s!"step {s.stepNo}: (shape {sh}, class {cls}) has {cap} exclusive pins and {allEnds.length} attached ends but only {onPin} ends sit on pins in {which}" :: s.fails }
+    else
+      let ends := allEnds.filter (fun e => (overOf og e.conn).isEmpty)
+      -- model state machine for this (shape, class): all pins free at the start of the transaction
+      let mut ms : State := pins.map (fun p => ⟨p.id, sh, cls, p.excl, []⟩)
+      for (which, pick) in [("route()", fun (e : EndObs) => e.route), ("displayRoute()", fun (e : EndObs) => e.disp)] do
+        ms := step ms .freeAll
+        for e in ends do
+          let r := pick e
+          match r.head? with
+          | none => s := { s with fails := s!"step {s.stepNo}: connector {e.conn} has an empty {which}" :: s.fails }
+          | some p0 =>
+            let here := pins.filter (fun p => p.pos == p0)
+            if here.isEmpty then
+              let msg := s!"step {s.stepNo}: connector {e.conn} {if e.isDst then "dst" else "src"} attached to (shape {sh}, class {cls}) ends at {showP p0} in {which}, not at any of the {pins.length} pin(s) of that class although a free pin exists"
+              -- class hyper-disp: HyperedgeImprover rewrote displayRoute() of a hyperedge member
+              let routeOk := match e.route.head? with | some q => pins.any (fun p => p.pos == q) | none => false
+              if e.hyper && which == "displayRoute()" && routeOk then s := gated s "hyper-disp" msg
+              else s := { s with fails := msg :: s.fails }
+            else
+              s := bump s "end.onpin"
+              if here.length > 1 then s := bump s "end.colocated-pins"
+              -- exclusivity: assign through the model state machine (non-exclusive pins first)
+              let cands := (here.filter (fun p => !p.excl)) ++ (here.filter (fun p => p.excl))
+              match cands.find? (fun p => (freePins ms sh cls).any (·.id == p.id)) with
+              | some p => ms := step ms (.route e.conn (some p.id) none)
+              | none =>
+                s := { s with fails := s!"step {s.stepNo}: connector {e.conn} ends at exclusive pin position {showP p0} of (shape {sh}, class {cls}) already used by another connector ({which})" :: s.fails }
+              if !invB ms then
+                s := { s with divs := s!"step {s.stepNo}: model invariant broken (cannot happen: exclusive_inv)" :: s.divs }
+              -- direction of the first / last leg (orthogonal connectors)
+              if e.orth then
+                s := bump s "end.dircheck"
+                if !(here.any (fun p => leavesAllowed r p.dirs)) then
+                  let leg := match firstLegEnd r with | some b => showP b | none => "-"
+                  let msg := s!"step {s.stepNo}: orthogonal connector {e.conn} {if e.isDst then "enters" else "leaves"} pin at {showP p0} via {leg} in {which}; permitted masks {here.map (·.dirs)}"
+                  -- displayRoute()-only failures: class hyper-disp (HyperedgeImprover rewrites the
+                  -- displayRoute() of hyperedge members and may drop the short final leg that
+                  -- honoured the pin direction), class nudge-dir (nudging shifts the second segment
+                  -- past the end point so that the first leg flips)
+                  if which == "displayRoute()" && here.any (fun p => leavesAllowed e.route p.dirs) then
+                    s := gated s (if e.hyper then "hyper-disp" else "nudge-dir") msg
+                  else s := { s with fails := msg :: s.fails }
+      if s.moved && !ends.isEmpty then s := { s with nontrivial := true }
+  return s
+
+def checkOthers (s : St) : St := Id.run do
+  let mut s := s
+  let og := overGroups s (pinEnds s)
+  for c in s.conns do
+    match lookup s.cur.routes c.id, lookup s.cur.disps c.id with
+    | some r, some d0 =>
+      if !(overOf og c.id).isEmpty then
+        s := bump s "conn.no-free-pin"
+        continue
+      if (noPathConns s og).contains c.id then continue
+      let (d, rev) := orientDisp s c d0
+      if rev then s := bump s "disp.reversed"
+      for (which, rt) in [("route()", r), ("displayRoute()", d)] do
+        -- junction ends: route() ends at JunctionRef::position(); displayRoute() of a junction
+        -- that is not fixed may end at recommendedPosition() (documented in junction.h: hyperedge
+        -- improvement moves free junctions and reports the new place there)
+        for (e, isDst) in [(c.src, false), (c.dst, true)] do
+          match e with
+          | .junc j =>
+            match s.cur.juncs.find? (·.id == j), (if isDst then rt.getLast? else rt.head?) with
+            | some jo, some p =>
+              s := bump s "end.junction"
+              let ok := jo.pos == p || (which == "displayRoute()" && !jo.fixed && jo.recPos == p)
+              if jo.pos != p && ok then s := bump s "end.junction.recommended"
+              if !ok then
+                s := { s with fails := s!"step {s.stepNo}: connector {c.id} {if isDst then "dst" else "src"} attached to junction {j} (fixed={jo.fixed}) ends at {showP p} in {which}, junction position() is {showP jo.pos}, recommendedPosition() {showP jo.recPos}" :: s.fails }
+            | _, _ => s := { s with fails := s!"step {s.stepNo}: connector {c.id}: no {which} / junction position" :: s.fails }
+          | _ => pure ()
+        -- checkpoints
+        if !c.cps.isEmpty then
+          s := bump s "checkpoints.checked" c.cps.length
+          if !checkpointsInOrder rt c.cps then
+            -- class cp-disp: route() visits the checkpoints but displayRoute() lost one: a
+            -- there-and-back spur is cut by Polygon::simplify() (vecDir == 0 also at a 180 degree
+            -- turn), or nudging collapsed the detour that led to the checkpoint
+            if which == "displayRoute()" && checkpointsInOrder r c.cps then
+              let sub := if !checkpointsInOrder (simplify r) c.cps then "cut by simplify()" else "simplify(route()) still visits them: lost in nudging / post-processing"
+              s := gated s "cp-disp" s!"step {s.stepNo}: connector {c.id}: checkpoints {c.cps.map showP} visited by route() but not by displayRoute() {rt.map showP} ({sub})"
+            else
+              s := { s with fails := s!"step {s.stepNo}: connector {c.id}: checkpoints {c.cps.map showP} not visited in order by {which} {rt.map showP}" :: s.fails }
+    | _, _ => pure ()
+  return s
+
+def endStep (s : St) : St :=
+  let s := checkPins s
+  let s := checkEnds s
+  let s := checkOthers s
+  { s with prev := s.cur, cur := {}, stats := bumpStats s.stats "steps" 1 }
+
+def feed (s : St) (l : Array String) : St :=
+  match l[0]! with
+  | "cfg" => { s with hyperOn := l[5]! == "1" }
+  | "pin" =>
+    let spec : PinSpec := ⟨nat! l[3]!, rat! l[4]!, rat! l[5]!, l[6]! == "1", rat! l[7]!, nat! l[8]!⟩
+    { s with pins := s.pins ++ [⟨nat! l[1]!, nat! l[2]!, spec, int! l[10]!⟩] }
+  | "conn" =>
+    let (e1, i) := parseEnd l 3
+    let (e2, _) := parseEnd l i
+    { s with conns := s.conns ++ [⟨nat! l[1]!, l[2]! == "1", e1, e2, []⟩] }
+  | "cps" =>
+    let id := nat! l[1]!
+    let ps := ptsFrom l 3 (nat! l[2]!)
+    { s with conns := s.conns.map (fun c => if c.id == id then { c with cps := ps } else c) }
+  | "op" =>
+    let s := bump s ("op." ++ l[1]!)
+    match l[1]! with
+    | "move" | "resize" => { s with moved := true }
+    | "setexcl" =>
+      let id := nat! l[2]!
+      { s with pins := s.pins.map (fun p => if p.id == id then { p with exclSet := int! l[3]! } else p) }
+    | _ => s
+  | "step" => { s with stepNo := nat! l[1]! }
+  | "box" => { s with cur := { s.cur with boxes := s.cur.boxes ++ [(nat! l[1]!, ⟨rat! l[2]!, rat! l[3]!, rat! l[4]!, rat! l[5]!⟩)] } }
+  | "pinpos" => { s with cur := { s.cur with pins := s.cur.pins ++ [⟨nat! l[1]!, pt! l 2, nat! l[4]!, l[5]! == "1"⟩] } }
+  | "jpos" => { s with cur := { s.cur with juncs := s.cur.juncs ++ [⟨nat! l[1]!, pt! l 2, pt! l 4, l[6]! == "1"⟩] } }
+  | "route" => { s with cur := { s.cur with routes := s.cur.routes ++ [(nat! l[1]!, ptsFrom l 3 (nat! l[2]!))] } }
+  | "disp" => { s with cur := { s.cur with disps := s.cur.disps ++ [(nat! l[1]!, ptsFrom l 3 (nat! l[2]!))] } }
+  | "endstep" => endStep s
+  | "assert" =>
+    -- a COLA_ASSERT of the library failed during this case (thrown as vpsc::CriticalFailure)
+    let msg := s!"step {s.stepNo + 1}: library assertion failed: {l[1]!}"
+    if (l[1]!.splitOn "freeSegmentID").length > 1 then
+      -- class nudge-assert: nudgeOrthogonalRoutes' debug-only check of the unsatisfied ranges
+      gated s "nudge-assert" msg
+    else { s with fails := msg :: s.fails }
+  | _ => s
+
+def numericKeys : List String := ["box", "pinpos", "jpos", "route", "disp", "pin", "shape", "junction", "cps"]
+
+def checkCase (strict : List String) (c : Case) : CaseResult := Id.run do
+  -- non-finite coordinates from the implementation are a failure of every clause
+  for l in c.lines do
+    if numericKeys.contains l[0]! && l.any (fun t => t == "nan" || t == "-nan" || t == "inf" || t == "-inf") then
+      return { verdict := .specfail s!"non-finite coordinate in: {" ".intercalate l.toList}" }
+  let s := c.lines.foldl feed ({ strict := strict } : St)
+  let stats := s.stats ++ [("pins", s.pins.length), ("connectors", s.conns.length)]
+  match s.fails.reverse, s.divs.reverse with
+  | f :: _, _ => return { verdict := .specfail f, nontrivial := s.nontrivial, stats := stats }
+  | [], d :: _ => return { verdict := .diverge d, nontrivial := s.nontrivial, stats := stats }
+  | [], [] => return { verdict := .ok, nontrivial := s.nontrivial, stats := stats }
+
+def run (args : List String) : IO UInt32 := runCases (checkCase args)
 
 end Driver.C11
